@@ -93,6 +93,8 @@ def test_strmethods(count):
         ("strip_ws", lambda s: s.strip(" \t\n\r\x0b\x0c")), ("strip_lt", lambda s: s.strip("<>")),
         ("split", lambda s: s.split()), ("split_sp", lambda s: s.split(" ")), ("split_colon", lambda s: s.split(":")),
         ("replace", lambda s: s.replace("\t", "    ")), ("replace1", lambda s: s.replace("\n", " ")),
+        ("replace_count1", lambda s: s.replace(".", "", 1)), ("replace_count2", lambda s: s.replace("a", "bb", 2)),
+        ("replace_count0", lambda s: s.replace(" ", "_", 0)),
         ("partition", lambda s: list(s.partition("="))), ("rpartition", lambda s: list(s.rpartition("+"))),
         ("isalpha", lambda s: s.isalpha()), ("isdigit", lambda s: s.isdigit()), ("isprintable", lambda s: s.isprintable()),
         ("isspace", lambda s: s.isspace()), ("isalnum", lambda s: s.isalnum()),
@@ -228,7 +230,7 @@ def test_float_repr(count):
              "123.456e2", "123.456e-2", "9e15", "1e16", "00.10e01", "7e-0", "1.e+15", "0.0e5",
              "0.00001", "0.0000123", "-0.000099", "1e-7", "12e-9", "1.5e-15", "1e16", "1e17", "12e16", "-1.25e15", "1.25e18",
              "100000000000000000.0", "120000000000000000000", "0.00001000", "1000000000000000.0", "1200000000000000.0",
-             "5e15", "9000000000000000", "1234567890123456.0", "123456789012345600.0",
+             "5e15", "9000000000000000", "1.5e-15", "-2.5e-19", "0.0000000000000015", "0.00000000000000012345", "9.9e-11", "1234567890123456.0", "123456789012345600.0",
              "inf", "-inf", "+INF", "Infinity", "-iNfInItY", "nan", "NaN", "-nan", "+nan"]
     pool += ["".join(rnd.choice("0123456789") for _ in range(rnd.randint(1, 3))) + rnd.choice(["", ".", ".5", ".25", ".0"]) +
              rnd.choice("eE") + rnd.choice(["", "+", "-"]) + str(rnd.randint(0, 16)) for _ in range(300)]
